@@ -29,7 +29,8 @@ RULE = (
     '(b) all byte strings of length 0..n over the BOM byte classes x tail x input kind x every stream position, and BOM x the full '
     'product of declaration spellings x input kind; (c) full product of meta spellings x context x str/bytes; (d) media types x '
     'spelling; (e) byte strings of <=3 units. Non-trivial = (a) at least one of charset / BOM / declaration / meta is present, '
-    '(b) the document starts with a BOM class byte or "<", (c)-(e) every row'
+    '(b) the document starts with a BOM class byte or "<", (c)-(e) every row; (f) all two-call histories first document (complete, or cut off '
+    'inside style / script / comment / tag / ...) x first call x a later question of (a) or (c), judged as if asked alone'
 )
 ASSUMPTIONS = [
     'a document given as str is byte-transparent: one character per byte (the convention of the library\'s own tests); decoded text '
@@ -136,6 +137,9 @@ def bounds(tier):
         'b_declaration_spellings': 'full product x 6 BOMs' ,
         'c_meta_spellings': 'full product of %d parameters x %d charsets x 3 contexts' % (len(META_PARAMS), len(META_CS)),
         'e_try_units': len(TRY_UNITS),
+        'f_first_documents': [n for n, _ in FIRST_DOCS],
+        'f_first_calls': FIRST_HOW,
+        'f_then': '%d questions of the families (a) and (c), each judged as if asked alone' % len(_history_battery(tier)),
     }
 
 
@@ -855,6 +859,102 @@ def _run_small(res):
 
 
 # ----------------------------------------------------------------------------------------
+# (f) histories: the answer for a document does not depend on the documents seen before it
+
+FIRST_META = b'<meta http-equiv="Content-Type" content="text/html; charset=koi8-r">'
+FIRST_DOCS = [
+    ('complete-with-meta', b'<html><head>' + FIRST_META + b'</head><body>x</body></html>'),
+    ('complete-xml-declaration', b'<?xml version="1.0" encoding="windows-1252"?><a/>'),
+    ('cut-in-style', b'<html><head>' + FIRST_META + b'<style>a{color:red'),
+    ('cut-in-script', b'<html><head><script>var x = "<meta'),
+    ('cut-in-comment', b'<html><head><!-- ' + FIRST_META),
+    ('cut-in-tag', b'<html><head><meta http-equiv="Content-Type" content="text/html; charset=koi8'),
+    ('cut-in-attribute-name', b'<html><head><meta http-eq'),
+    ('cut-in-title', b'<html><head><title>t'),
+    ('cut-in-textarea', b'<html><body><textarea>' + FIRST_META),
+    ('cut-in-cdata', b'<html><body><![CDATA[ ' + FIRST_META),
+    ('cut-in-pi', b'<?xml version="1.0" encoding="koi8-r"'),
+    ('cut-in-doctype', b'<!DOCTYPE html PUBLIC "-//W3C//DTD'),
+    ('cut-in-entity', b'<html><body>&#x4'),
+    ('cut-in-end-tag', b'<html><head></hea'),
+    ('stray-markup', b'<<< </ <! <? > " \' ='),
+    ('empty', b''),
+    ('bom-only', b'\xef\xbb\xbf'),
+    ('nul-bytes', b'\x00\x00\xfe\xff<\x00m\x00e\x00t\x00a'),
+]
+FIRST_HOW = ['getMetaInfo:bytes', 'getMetaInfo:str', 'getEncodingInfo:text/html', 'getEncodingInfo:application/xml', 'detectXMLEncoding', 'tryEncodings']
+
+
+def _first_call(fi, how):
+    data = FIRST_DOCS[fi][1]
+    try:
+        _arm()
+        if how == 'getMetaInfo:bytes':
+            encutils.getMetaInfo(data)
+        elif how == 'getMetaInfo:str':
+            encutils.getMetaInfo(data.decode('latin-1'))
+        elif how.startswith('getEncodingInfo:'):
+            encutils.getEncodingInfo(make_response({'stub': 'message', 'mt': how.split(':', 1)[1], 'charset': None}), data, _NoLog())
+        elif how == 'detectXMLEncoding':
+            encutils.detectXMLEncoding(data, _NoLog())
+        else:
+            encutils.tryEncodings(data, _NoLog())
+        _disarm()
+    except guard.Timeout:
+        return 'timeout'
+    except Exception as e:  # the first call is judged by the other families; here only what it leaves behind matters
+        _disarm()
+        return 'exc:' + type(e).__name__
+    return 'ok'
+
+
+def _history_battery(tier):
+    """cases of the families (a)-(c) asked after the first call: each is judged exactly as if it were asked alone"""
+    out = []
+    for cs in META_CS:
+        for ctx in range(len(META_CONTEXTS)):
+            for as_ in ('str', 'bytes'):
+                out.append({'kind': 'meta', 'meta': dict(META_DEFAULT, cs=cs), 'ctx': ctx, 'as': as_})
+    rows = []
+    for mt in ('text/html', 'application/xml', 'text/plain'):
+        for bom in (None, 'utf-8'):
+            rows += list(_table_rows(tier, mt, 'message', bom))[:: 37 if tier == 'quick' else 5]
+    out += rows
+    return out
+
+
+def run_history_case(res, case, size=None):
+    res.evaluations += 1
+    res.nontrivial += 1
+    res.counters['history.calls'] += 1
+    res.clauses['C20.history'] += 1
+    then = case['then']
+    judge = judge_meta if then['kind'] == 'meta' else judge_table
+    # the question is asked before and after the first call: the two answers are the same (what the answer has to be is
+    # judged by the families (a) and (c))
+    vs0, outcome0 = judge(then)
+    first = _first_call(case['first'], case['how'])
+    vs, outcome = judge(then, res)
+    res.outcomes.add(h64(['history', first, outcome]))
+    if outcome == outcome0 and [v[:2] for v in vs] == [v[:2] for v in vs0]:
+        return
+    if not vs:
+        vs = [('C20.history', 'answer-differs-from-the-one-before-the-first-call', outcome0, outcome)]
+    for clause, sym, exp, obs in vs:
+        res.violation('C20.history', f'after={FIRST_DOCS[case["first"]][0]}|via={case["how"].split(":")[0]}|then={then["kind"]}|{clause}|{sym.split("|")[0]}', case, exp, obs, size=size)
+
+
+def _run_history(res, tier, fi):
+    battery = _history_battery(tier)
+    for how in FIRST_HOW:
+        for i, then in enumerate(battery):
+            case = {'kind': 'history', 'first': fi, 'how': how, 'then': then}
+            run_history_case(res, case, size=i)
+            if i == 3:
+                res.sample(case)
+
+
+# ----------------------------------------------------------------------------------------
 # plan / run / replay
 
 
@@ -878,6 +978,8 @@ def plan(tier):
     for ctx in range(len(META_CONTEXTS)):
         shards.append(['meta', ctx])
     shards.append(['small'])
+    for fi in range(len(FIRST_DOCS)):
+        shards.append(['history', fi])
     return shards
 
 
@@ -908,6 +1010,8 @@ def run_shard(shard, tier, seed):
             _run_meta(res, shard[1])
         elif kind == 'small':
             _run_small(res)
+        elif kind == 'history':
+            _run_history(res, tier, shard[1])
 
     _with_alarm(go)
     return res
@@ -926,6 +1030,8 @@ def replay(case, tier, seed):
             run_sniff_case(res, case)
         elif k == 'meta':
             run_meta_case(res, case)
+        elif k == 'history':
+            run_history_case(res, case)
         elif k == 'mediatype':
             res.evaluations += 1
             for clause, sig, exp, obs in judge_mediatype(case, res)[0]:
